@@ -530,7 +530,7 @@ def _aimed(rng, t):
     # elements addressed by index / key / scalar value; then elements of a List of spec items
     # addressed BY VALUE with an instance (own element, the caller's original, equal instance)
     return (ig.element_cases(rng, 300 if quick else 5000, inplace_values=(False,))
-            + ig.byvalue_cases(rng, 120 if quick else 3000, inplace_values=(False,)))
+            + ig.byvalue_cases(rng, 120 if quick else 1500, inplace_values=(False,)))
 
 
 def main(tier, replay=None):  # noqa: F811
